@@ -78,9 +78,8 @@ def single_assignments(fn):
                 if isinstance(t, ast.Name) and len(n.targets) == 1:
                     vals[t.id] = n.value
         elif isinstance(n, (ast.AugAssign, ast.AnnAssign)):
-            for x in ast.walk(n.target):
-                if isinstance(x, ast.Name):
-                    counts[x.id] = counts.get(x.id, 0) + 2
+            if isinstance(n.target, ast.Name):      # x[i] += v rebinds nothing
+                counts[n.target.id] = counts.get(n.target.id, 0) + 2
         elif isinstance(n, (ast.For, ast.comprehension)):
             for x in ast.walk(n.target):
                 if isinstance(x, ast.Name):
